@@ -163,6 +163,15 @@ Theorem C09_F38_orig_agrees : forall p t, view_ok (p_v p) -> (v_file (p_v p) = f
 Proof. exact ImportsProofs.import_from_va_orig_agrees. Qed.
 Print Assumptions C09_F38_orig_agrees.
 
+
+(* the ordinal flag of the model is the IMAGE_ORDINAL_FLAG32/64 constant of src/image.rs, regenerated on every run *)
+From PV.gen Require Consts.
+From PV.Proofs Require ConstsAgree.
+Theorem C09_constants_match_source : forall p,
+  ordinal_flag p = if Headers.f_64 (p_f p) then Consts.K_IMAGE_ORDINAL_FLAG64 else Consts.K_IMAGE_ORDINAL_FLAG32.
+Proof. exact ConstsAgree.imports_consts. Qed.
+Print Assumptions C09_constants_match_source.
+
 Example C09_nonvacuous :
   pe_ok ex_pe /\
   imports ex_pe = Ok {| r_off := 320; r_len := 20 |} /\
